@@ -5,7 +5,7 @@ cd /repo && git status --short | grep -v '^??' | grep . && { echo "repo not clea
 trap "git -C /repo checkout -- ." EXIT
 git -C /repo apply "$P" || { echo "patch does not apply"; exit 2; }
 for c in "$@"; do
-  cd /verif && bin/check $c ${TIER:-quick} > /tmp/seedeval-$c.out 2>&1
+  cd /verif && timeout ${EVAL_TIMEOUT:-900} bin/check $c ${TIER:-quick} > /tmp/seedeval-$c.out 2>&1
   echo "== $c exit $? :: $(grep -c '^VIOLATION' /tmp/seedeval-$c.out) violation lines"
   grep -E "^VIOLATION|signature=|MACHINERY" /tmp/seedeval-$c.out | cut -c1-260 | head -6
 done
